@@ -397,8 +397,21 @@ fn fix_clause(c: &Clause, rewrite: bool, found: &mut BTreeSet<&'static str>) -> 
     count_vars(&c.head, &mut st.counts);
     count_vars(&c.body, &mut st.counts);
     st.see(&c.head);
-    let body = fix_goal(&c.body, false, &mut st);
+    let mut body = fix_goal(&c.body, false, &mut st);
     found.extend(st.found.iter());
+    if rewrite {
+        // known findings around unbound permanent (stack) variables (copy_term/2 binds them, the
+        // culprit of a builtin's type error may keep pointing to their dead stack cell -> SIGSEGV):
+        // every body-only variable is created on the heap by a first goal `_ = i(V1, .., Vk)`
+        let mut hv = vec![];
+        c.head.vars(&mut hv);
+        let mut bv = vec![];
+        body.vars(&mut bv);
+        let only: Vec<T> = bv.into_iter().filter(|v| !hv.contains(v)).map(T::Var).collect();
+        if !only.is_empty() {
+            body = cmp(",", vec![cmp("=", vec![st.fresh(), T::Cmp("i".into(), only)]), body]);
+        }
+    }
     Clause { head: c.head.clone(), body }
 }
 
@@ -420,7 +433,8 @@ pub fn known_shapes(p: &Program) -> BTreeSet<&'static str> {
 /// * an inlined type test on a variable is run through call/1;
 /// * a variable that may be uninitialised when an arithmetic goal is reached gets `V = _` first;
 /// * `V is W` with V occurring nowhere else becomes `V is W + 0`;
-/// * `copy_term(T, X)` with a non-ground T becomes `true`.
+/// * `copy_term(T, X)` with a non-ground T becomes `true`;
+/// * every body-only variable is first created on the heap by an initial goal `_ = i(V1, .., Vk)`.
 pub fn sanitize(p: &Program) -> Program {
     let mut ignore = BTreeSet::new();
     Program {
